@@ -150,6 +150,17 @@ CLAIMED = {
         "trusted: TLC; approximation-error clauses for smooth non-affine fields are not decided (DESIGN section 4)",
         "DESIGN.md 3 C13",
     ),
+    "C14": (
+        "spec/BSpline.tla, spec/MC_BSpline.tla",
+        "analytic cubic B-spline basis in exact rationals; TLC proves partition of unity, derivative weights summing to zero, linear "
+        "precision, agreement of the two evaluation algorithms, control grid coverage for ALL image sizes in range and invariance of the "
+        "function under subdivision, and emits weight tables, grid sizes and evaluated splines; compared with the weight/kernels functions, "
+        "evaluate_cubic_bspline (both algorithms, 1-D/2-D, derivative orders 0..3), control grid size, subdivision and FreeFormDeformation",
+        "strides {1,2,3,4,5,7,16} (1..16 thorough) x derivative orders 0..3; image sizes 1..512 (4096 thorough) exhaustively per stride; "
+        "integer coefficient tensors incl. impulses and linear functions; FFD linear precision and n -> 2n-1 refinement in 2-D and 3-D",
+        "trusted: TLC; the right-continuous convention for the discontinuous third derivative at knots",
+        "DESIGN.md 3 C14",
+    ),
     "C19": (
         "spec/Batch.tla, spec/MC_Batch.tla, spec/Trace_Batch.tla",
         "TLA+ state machine over programs of torch operations: each operation is given by its mathematical effect on the item "
